@@ -8,3 +8,6 @@ func verifC14NativeActionDir() {}
 func verifC14Root() string      { return "/r" }
 
 func verifC02NativeJobOrder(src string) {}
+
+func verifC10NativeFindProject(gs, ws, gr, wr int, want string) {}
+func verifC02NativeFormat() {}
